@@ -971,6 +971,12 @@ func (p *parser) parseFuncClauses(fc *FuncContract) error {
 				} else {
 					ac.K, _ = strconv.Atoi(t.text)
 				}
+			case "select":
+				ac.At = "select"
+				ac.K = 1
+				if p.peek().kind == "int" {
+					ac.K, _ = strconv.Atoi(p.next().text)
+				}
 			case "loop":
 				ac.At = "loophead"
 				ac.K, _ = strconv.Atoi(p.next().text)
